@@ -96,7 +96,7 @@ func mainCmd(env *Env) int {
 		}
 		var specs []JobSpec
 		for _, e := range strings.Split(*entry, ",") {
-			specs = append(specs, JobSpec{Module: *module, Pkg: *pkg, Entry: e, CfgsQuick: cl, CfgsThorough: cl})
+			specs = append(specs, JobSpec{Module: *module, Pkg: *pkg, Entry: e, CfgsQuick: cl, CfgsDeep: cl}) // -tier thorough = deeper histories
 		}
 		spec := &CheckSpec{Level: "model_checking", Jobs: specs}
 		return runCheck(env, "DEV", *tier, spec, !*noreplay)
